@@ -51,7 +51,7 @@ func checkC18(w *World, r *Report) {
 }
 
 func checkC18Ranges(w *World, r *Report, pkg interface{ String() string }) {
-	ru := r.Rule("C18.1", "default ranges are registered special-purpose blocks: every CIDR literal in the package-level range tables of package clientip lies inside a block of the IANA IPv4/IPv6 special-purpose registries, multicast or class E space", 40)
+	ru := r.Rule("C18.1", "default ranges are registered special-purpose blocks: every CIDR literal in the package-level range tables of package clientip lies inside a block of the IANA IPv4/IPv6 special-purpose registries, multicast or class E space", 10)
 	p := w.ByPath[modulePath+"/clientip"]
 	var blocks []netip.Prefix
 	for _, b := range ianaSpecial {
@@ -108,7 +108,7 @@ func checkC18Ranges(w *World, r *Report, pkg interface{ String() string }) {
 
 // checkC18Returns: AST rule over every ClientIP method of package clientip.
 func checkC18Returns(w *World, r *Report, _ any) {
-	ru := r.Rule("C18.2", "an address or an error, never a substitute: every return of a ClientIP method is (nil, non-nil error), or returns an address obtained from the header iterator of that strategy, from ParseIPAddr, from iterutil.At on that iterator, or from a delegated resolver", 10)
+	ru := r.Rule("C18.2", "an address or an error, never a substitute: every return of a ClientIP method is (nil, non-nil error), or returns an address obtained from the header iterator of that strategy, from ParseIPAddr, from iterutil.At on that iterator, or from a delegated resolver", 5)
 	p := w.ByPath[modulePath+"/clientip"]
 	info := p.TypesInfo
 	allowedCall := func(call *ast.CallExpr) bool {
@@ -228,7 +228,7 @@ func isNilIdent(info *types.Info, e ast.Expr) bool {
 }
 
 func checkC18Direction(w *World, r *Report) {
-	ru := r.Rule("C18.3", "direction: the rightmost strategies read only the backward iterator (which walks header lines last to first and splits each from the right); the forward iterator is used only by the leftmost strategy, under Take(limit); the trusted-count strategy takes entry count-1 from the right; the single-header strategy takes the last instance; the chain returns its first success", 8)
+	ru := r.Rule("C18.3", "direction: the rightmost strategies read only the backward iterator (which walks header lines last to first and splits each from the right); the forward iterator is used only by the leftmost strategy, under Take(limit); the trusted-count strategy takes entry count-1 from the right; the single-header strategy takes the last instance; the chain returns its first success", 4)
 	cp := modulePath + "/clientip"
 	calls := func(fn *ssa.Function) map[string][]*ssa.Call {
 		out := map[string][]*ssa.Call{}
@@ -349,7 +349,7 @@ func checkC18Direction(w *World, r *Report) {
 }
 
 func checkC18Defaults(w *World, r *Report) {
-	ru := r.Rule("C18.4", "defaults are only a fallback: the default range tables are read only as the second argument of orSlice(configured, defaults), and orSlice returns its first non-empty argument", 2)
+	ru := r.Rule("C18.4", "defaults are only a fallback: the default range tables are read only as the second argument of orSlice(configured, defaults), and orSlice returns its first non-empty argument", 1)
 	cp := modulePath + "/clientip"
 	sp := w.SSAPkgs[cp]
 	n := 0
@@ -408,9 +408,11 @@ func checkC18Defaults(w *World, r *Report) {
 			return
 		}
 		for _, f := range factsAtBlock(ret.Block()) {
-			if bo, ok := f.Cond.(*ssa.BinOp); ok && bo.Op == token.GTR && f.Val {
+			if bo, ok := f.Cond.(*ssa.BinOp); ok {
 				if z, ok := constInt(bo.Y); ok && z == 0 {
-					okOr = true
+					if (bo.Op == token.GTR && f.Val) || (bo.Op == token.NEQ && f.Val) || (bo.Op == token.EQL && !f.Val) || (bo.Op == token.LEQ && !f.Val) {
+						okOr = true
+					}
 				}
 			}
 		}
